@@ -6,7 +6,7 @@ import ast
 import sympy as sp
 
 from ptstat import AnalysisError, algebra
-from ptstat.symval import SymObj, Phi, SymRaise, Builtin, Closure
+from ptstat.symval import SymObj, Phi, SymRaise, Builtin, Closure, _MISSING as _MISSING_
 from ptstat.world import World
 from .common import world, eq, fsite, raises, _s
 
@@ -180,6 +180,41 @@ def run(ctx):
                         good = True
         ctx.check(good, "R3", f"a residual above 0.1 % of the target raises RuntimeError instead of returning ({label})",
                   f"no RuntimeError exit guarded by 100*|f(t)|/target > 0.1 (conditional raises seen: {_s(rt, 200)})", site)
+        # a copy of the sample (copy.copy / pickle: whichever hooks the class defines) answers like the sample itself
+        if label in ("rest times [T1, T2] with T1 < T2", "a single rest time"):
+            S_ = smp.cls
+            hooks = {h: S_.lookup(h) for h in ("__getstate__", "__setstate__", "__copy__", "__deepcopy__", "__reduce__", "__reduce_ex__")}
+            hooks = {h: v for h, v in hooks.items() if v is not None and v is not _MISSING_}
+            if hooks:
+                twin = None
+                if "__copy__" in hooks:
+                    twin = I.call(I.getattr(smp, "__copy__"), [], {})
+                elif "__getstate__" in hooks or "__setstate__" in hooks:
+                    state = I.call(I.getattr(smp, "__getstate__"), [], {}) if "__getstate__" in hooks else dict(I.heap[smp.id])
+                    twin = I.new_obj("sample_copy", S_, {}, open_attrs=set())
+                    if "__setstate__" in hooks:
+                        I.call(I.getattr(twin, "__setstate__"), [state], {})
+                    elif isinstance(state, dict):
+                        I.heap[twin.id].update(state)
+                    else:
+                        raise AnalysisError("Sample.__getstate__ without __setstate__ returns something that is not a dict")
+                else:
+                    raise AnalysisError(f"Sample defines {sorted(hooks)}: copy protocol not modelled")
+                cap.clear()
+                rr_ = raises(lambda: I.call(I.getattr(twin, "decay_time"), [target], {}))
+                if rr_ is not None or "f" not in cap:
+                    ctx.fail("R4", f"a copied / unpickled sample answers decay_time like the original ({label})",
+                             f"decay_time on the copy {'raises ' + str(rr_) if rr_ else 'does not reach the solver'}", site)
+                else:
+                    f_twin = I.call(cap["f"], [t], {})
+                    eq(ctx, "R4", f"a copied / unpickled sample answers decay_time like the original ({label})",
+                       cons(f_twin), total(t) - target, site)
+                    grow_ = [x for x in _exps(sp.sympify(f_twin).subs(t, 0)) if x.args[0].is_positive or (x.args[0].is_nonnegative and not x.args[0].is_zero)]
+                    ctx.check(not grow_, "R5", f"the copy holds the activity recorded at removal, not one extrapolated backwards with exp(+lam*T_rest) ({label})",
+                              f"f of the copy applies {_s(grow_)} to a stored activity: products that have decayed to 0.0 by the first rest time "
+                              "are lost and lam*T > 709 overflows", site)
+            else:
+                ctx.ok("R4", f"Sample defines no copy / pickle hooks: a copy holds the same state ({label})", site=site)
         # a second activation of the same sample replaces what decay_time uses (no stale state)
         if label == "a single rest time":
             T3 = P("T3")
@@ -197,7 +232,7 @@ def run(ctx):
             stale = fv2 is None or any(sp.sympify(fv2).has(a) for a in old) or sp.sympify(fv2).has(T1)
             ctx.check(not stale, "R4", "decay_time after a second calculate_activation uses the new activities only",
                       f"f after re-activation is {_s(fv2)}", site)
-    ctx.floor("R1", 7); ctx.floor("R2", 7); ctx.floor("R3", 14); ctx.floor("R4", 8); ctx.floor("R5", 7)
+    ctx.floor("R1", 7); ctx.floor("R2", 7); ctx.floor("R3", 14); ctx.floor("R4", 10); ctx.floor("R5", 7)
 
     # no activation: documented 0
     w, smp, cap, tr, ftr = setup(ctx, [T1], [], activate=False)
